@@ -48,18 +48,41 @@ Section RealProofs.
     eapply mutation_of_valid; eauto using pm_step_valid.
   Qed.
 
+  (* over Q: the interpolation lb*(1-r) + ub*r stays inside [lb, ub] for r in [0, 1] *)
+  Lemma um_interp_in_bounds (a b r : Q) : (a <= b)%Q -> (0 <= r)%Q -> (r <= 1)%Q ->
+    (a <= a * (1 - r) + b * r)%Q /\ (a * (1 - r) + b * r <= b)%Q.
+  Proof. intros. split; nra. Qed.
+
+  Lemma xleb_Fin x y : xleb (Fin x) (Fin y) = true <-> (x <= y)%Q.
+  Proof. unfold xleb. simpl. rewrite negb_true_iff. apply Qltb_false. Qed.
+
+  Lemma um_value_valid lb ub t x t' : xleb lb ub = true -> um_value lb ub t = Ok (x, t') -> in_bounds lb ub x.
+  Proof.
+    intros W H. unfold um_value in H. destruct lb as [|a|], ub as [|b|]; try discriminate.
+    apply xleb_Fin in W.
+    destruct (Qle_bool FLOAT_OVERFLOW (b - a)).
+    - destruct (get_rand t) as [[r t2]|] eqn:Er; cbn [bind] in H; [|discriminate].
+      apply get_rand_ok in Er. destruct Er as (_ & R0 & R1). inversion H; subst.
+      destruct (um_interp_in_bounds a b r W R0) as [A B]; [lra|].
+      pose proof (Qred_correct (a * (1 - r) + b * r)) as Rq.
+      unfold in_bounds, in_boundsb. apply andb_true_iff. split; apply xleb_Fin; rewrite Rq; assumption.
+    - destruct (get_unif_in (Fin a) (Fin b) t) as [[q t2]|] eqn:Eq; cbn [bind] in H; [|discriminate].
+      inversion H; subst. apply get_unif_in_ok in Eq. destruct Eq as (_ & A & B).
+      unfold in_bounds, in_boundsb. now rewrite A, B.
+  Qed.
+
   Lemma um_step_valid praw : step_valid E (um_step E praw).
   Proof.
     intros ty v t v' t1 W V H. destruct ty as [lb ub| | |]; simpl in H; try (inversion H; fail).
     destruct (get_unif t) as [[u t0]|]; simpl in H; [|discriminate].
     destruct (xleb u praw); [|inversion H].
     destruct v; try discriminate.
-    destruct (get_unif_in lb ub t0) as [[q t2]|] eqn:Eq; simpl in H; [|discriminate].
-    inversion H; subst. apply get_unif_in_ok in Eq. destruct Eq as (_ & A & B).
-    simpl. unfold in_bounds, in_boundsb. now rewrite A, B.
+    destruct (um_value lb ub t0) as [[xv t2]|] eqn:Ev; cbn [bind] in H; [|discriminate].
+    inversion H; subst. simpl. eapply um_value_valid; eauto.
   Qed.
 
-  (* UM writes the uniform(lb, ub) draw itself: in bounds by the range contract of the primitive *)
+  (* UM writes the uniform(lb, ub) draw itself (in bounds by the range contract of the primitive) or, when the
+     width ub - lb overflows, the interpolation lb*(1-r) + ub*r with r = random.random() in [0,1) *)
   Theorem um_valid pr ts fresh p t c f t' :
     Forall wf_type ts -> valid_sol ts p -> um E P pr ts fresh p t = Ok (c, f, t') ->
     valid_sol ts c /\ copied_from c p /\ sid c = fresh /\ f = S fresh.
@@ -375,13 +398,13 @@ Qed.
 Lemma normalize_div_safe u t : is_zero u = false -> div_safe (normalize u t).
 Proof.
   intro H. unfold normalize. rewrite H. unfold qdiv. rewrite (is_zero_false_dot u H). simpl.
-  destruct t as [|[q0|n0|b0|q0|p0|l0|v0] r]; simpl; auto. destruct v0 as [|[|q1|]]; simpl; auto. destruct (Qltb 0 q1); simpl; auto.
+  destruct t as [|[q0|n0|b0|q0|p0|l0|v0|q0] r]; simpl; auto. destruct v0 as [|[|q1|]]; simpl; auto. destruct (Qltb 0 q1); simpl; auto.
 Qed.
 
 Lemma get_val_div_safe t : div_safe (get_val t).
 Proof. destruct t as [|[] r]; simpl; auto. Qed.
 Lemma get_nonneg_div_safe t : div_safe (get_nonneg t).
-Proof. destruct t as [|[q0|n0|b0|q0|p0|l0|v0] r]; simpl; auto. destruct v0 as [|[|q1|]]; simpl; auto. destruct (Qle_bool 0 q1); simpl; auto. Qed.
+Proof. destruct t as [|[q0|n0|b0|q0|p0|l0|v0|q0] r]; simpl; auto. destruct v0 as [|[|q1|]]; simpl; auto. destruct (Qle_bool 0 q1); simpl; auto. Qed.
 Lemma get_gauss_div_safe t : div_safe (get_gauss t).
 Proof. destruct t as [|[] r]; simpl; auto. Qed.
 Lemma get_gausses_div_safe : forall n t, div_safe (get_gausses n t).
